@@ -167,6 +167,16 @@ pub fn run(case: &Case, j: Judge) -> Outcome {
                     );
                     break;
                 }
+                // "... every subsequently observable result the same as if the call had not been
+                // made": the same call made again meets the same state and is refused the same way
+                if single {
+                    let again = lib.exec(op);
+                    o.stats.api_calls += 1;
+                    if again.brief() != got.brief() {
+                        report(&mut o, "no-effect.repeat-differs", op.kind(), format!("step {} {} through a handle whose stream was removed was refused ({}); the same call made again returns {}", i, op.to_json(), got.brief(), again.brief()), i);
+                        break;
+                    }
+                }
             }
         }
         match &got {
